@@ -221,6 +221,14 @@ def main():
     for f in all_dbg:
         if not re.search(r'\.field\(\s*"' + f + r'"\s*,\s*&?' + f + r"\s*\)", dbg):
             die(f"Debug for PinnedConstraintSystem: field {f} does not print the member of the same name")
+    nm = re.search(r'f\.debug_struct\(\s*"(\w+)"\s*\)', dbg)
+    if not nm:
+        die("Debug for PinnedConstraintSystem: debug_struct name not found")
+    json_name = '"' + nm.group(1) + '"'
+    advd = strip_comments(body_after(circ, r"impl\s+std::fmt::Debug\s+for\s+Advice\s*", "Debug for Advice"))
+    adv_cond = bool(re.search(r'if\s+self\.phase\s*!=\s*FirstPhase\.to_sealed\(\)\s*\{\s*debug_struct\.field\(\s*"phase"\s*,\s*&self\.phase\s*\)\s*;\s*\}', advd))
+    if len(re.findall(r'\.field\(', advd)) != 1:
+        die("Debug for Advice: expected exactly one (conditional) field")
     pin = strip_comments(body_after(circ, r"pub\s+fn\s+pinned\s*\(\s*&self\s*\)\s*->\s*PinnedConstraintSystem", "ConstraintSystem::pinned"))
     for f in pinned_fields:
         if not re.search(r"\b" + f + r"\s*:\s*(?:&self\." + f + r"\b|PinnedGates\(\s*&self\." + f + r"\s*\))", pin):
@@ -290,6 +298,12 @@ def main():
     o.append(f"def csDebugAlways : List String := {lean_str_list(uncond_fields)}")
     o.append("/-- Fields printed only when `num_challenges > 0`. -/")
     o.append(f"def csDebugWithChallenges : List String := {lean_str_list(cond_fields)}")
+    o.append("/-- All fields printed by `Debug for PinnedConstraintSystem` in source order, with `true` for those inside the")
+    o.append("`if *num_challenges > &0` block; the struct name given to `debug_struct`. -/")
+    o.append("def csDebugOrder : List (String × Bool) := [" + ", ".join('("' + f + '", ' + ("true" if f in cond_fields else "false") + ")" for f in all_dbg) + "]")
+    o.append(f"def csDebugName : String := {json_name}")
+    o.append("/-- Fields printed by `Debug for Advice` and the condition of the `phase` field (`self.phase != FirstPhase`). -/")
+    o.append(f"def advicePhaseShownOnlyIfLater : Bool := {'true' if adv_cond else 'false'}")
     o.append("/-- Members of `PinnedEvaluationDomain` (derived `Debug`). -/")
     o.append(f"def domainPinnedFields : List String := {lean_str_list(dom_fields)}")
     o.append("")
